@@ -1665,9 +1665,17 @@ behavior[numpy.power, "Momentum4D", numbers.Real] = (
     lambda v, expo: v.tau2 if expo == 2 else v.tau**expo
 )
 
-behavior["__cast__", VectorNumpy2D] = lambda v: vector.Array(v)
-behavior["__cast__", VectorNumpy3D] = lambda v: vector.Array(v)
-behavior["__cast__", VectorNumpy4D] = lambda v: vector.Array(v)
+
+
+def _cast_numpy(v: typing.Any) -> typing.Any:
+    # zip the columns so that the records sit at the innermost level whatever
+    # the shape of the NumPy array (ak.Array(v) puts them outermost for ndim > 1)
+    return vector.Array(ak.zip({name: numpy.asarray(v[name]) for name in v.dtype.names}))
+
+
+behavior["__cast__", VectorNumpy2D] = _cast_numpy
+behavior["__cast__", VectorNumpy3D] = _cast_numpy
+behavior["__cast__", VectorNumpy4D] = _cast_numpy
 
 for left in (
     "Vector2D",
